@@ -7,6 +7,8 @@ import PtVerif.Generated.MassTables
 import PtVerif.Generated.Density
 import PtVerif.Model.LoadersNsf
 import PtVerif.Generated.NsfTables
+import PtVerif.Model.Ancillary
+import PtVerif.Generated.Ancillary
 /-! Driver sub-command `loader`: the table loaders (C06, C07, C20) at `Float`.
 
 Raw table text crosses the protocol hex-encoded (two digits per byte, one token), so that blanks,
@@ -53,6 +55,16 @@ structure St where
   nsfImag : Str := []
   ed : List EDTable := []
   nsf : Option (NsfState Float) := none
+  covText : Str := []
+  cov : Option (List (Nat × (Float × Option Float))) := none
+  crystIn : List (Option Crystal) := []
+  cryst : Option (List (Nat × Option Crystal)) := none
+  linesText : Str := []
+  xlines : Option (List (Nat × (Dec × Dec))) := none
+  magText : Str := []
+  mag : Option (List ((Nat × Nat) × MagRec)) := none
+  cmText : Str := []
+  cm : Option (List (String × CMEntry)) := none
 
 def init : St := {}
 
@@ -256,6 +268,195 @@ def handleNsf (st : St) : Toks → IO (Option St)
   | ["nsf_selfcheck"] => do reply (nsfSelfcheck st); pure (some st)
   | _ => pure none
 
+
+/-! ### C20 -/
+
+def decF (d : Dec) : Float := d.toNum
+
+def readStrDecs : Toks → Option (List (String × Dec))
+  | [] => some []
+  | k :: m :: e :: r => match unhex k, intTok m, natTok e, readStrDecs r with
+    | some k, some m, some e, some l => some ((String.ofList k, ⟨m, e⟩) :: l)
+    | _, _, _, _ => none
+  | _ => none
+
+def sameCov : CovRow → CovRow → Bool
+  | .skip, .skip => true
+  | .row z r d, .row z' r' d' => z == z' && r.same r' && d.same d'
+  | _, _ => false
+
+def sameLine (a b : LineRow) : Bool := a.sym == b.sym && a.kAlpha.same b.kAlpha && a.kBeta1.same b.kBeta1
+
+def sameDecs (a b : List Dec) : Bool := a.length == b.length && (a.zip b).all fun (x, y) => x.same y
+
+def sameMag (a b : MagRow) : Bool :=
+  a.jn == b.jn && a.sym == b.sym && a.charge == b.charge && sameDecs a.values b.values
+
+def sameCM (a b : CMEntry) : Bool :=
+  a.symbol == b.symbol && sameDecs a.a b.a && a.c.same b.c && sameDecs a.b b.b
+
+def sameCrystal : Option Crystal → Option Crystal → Bool
+  | none, none => true
+  | some a, some b => a.symmetry == b.symmetry && a.params.length == b.params.length
+      && (a.params.zip b.params).all fun (x, y) => x.1 == y.1 && x.2.same y.2
+  | _, _ => false
+
+def ancSelfcheck (st : St) : String :=
+  match mapM? parseCovLine (lines st.covText), mapM? parseLineRow (lines st.linesText),
+        parseMag st.magText, parseCM st.cmText with
+  | some cov, some ln, some mg, some cm =>
+    match firstDiff sameCov 0 cov PtGen.corderoRows, firstDiff sameLine 0 ln PtGen.lineRows,
+          firstDiff sameMag 0 mg PtGen.magRows, firstDiff sameCM 0 cm PtGen.cmEntries,
+          firstDiff sameCrystal 0 st.crystIn PtGen.crystalList with
+    | none, none, none, none, none =>
+      s!"ok {cov.length + ln.length + mg.length + cm.length + st.crystIn.length}"
+    | some i, _, _, _, _ => s!"MISMATCH Cordero line {i}"
+    | _, some i, _, _, _ => s!"MISMATCH spectral_lines_data row {i}"
+    | _, _, some i, _, _ => s!"MISMATCH CFML_DATA entry {i}"
+    | _, _, _, some i, _ => s!"MISMATCH f0_WaasKirf entry {i}"
+    | _, _, _, _, some i => s!"MISMATCH crystal_structures slot {i}"
+  | none, _, _, _ => "MISMATCH model-cannot-parse Cordero"
+  | _, none, _, _ => "MISMATCH model-cannot-parse spectral_lines_data"
+  | _, _, none, _ => "MISMATCH model-cannot-parse CFML_DATA"
+  | _, _, _, none => "MISMATCH model-cannot-parse f0_WaasKirf"
+
+def jnOfTok : String → Option Jn
+  | "j0" => some .j0 | "J" => some .J | "j2" => some .j2 | "j4" => some .j4 | "j6" => some .j6
+  | _ => none
+
+def showDecs (l : List Dec) : String := " ".intercalate (l.map fun d => showF (decF d))
+
+def setText (st : St) (which : String) (t : Str) : St :=
+  match which with
+  | "cov" => { st with covText := t }
+  | "lines" => { st with linesText := t }
+  | "mag" => { st with magText := t }
+  | _ => { st with cmText := t }
+
+def handleAnc (st : St) : Toks → IO (Option St)
+  | ["anc_text", which, h] => match unhex h with
+    | some t => pure (some (setText st which t))
+    | none => do reply "ERR bad-hex"; pure (some st)
+  | ["cr_clear"] => pure (some { st with crystIn := [] })
+  | ["cr", "N"] => pure (some { st with crystIn := st.crystIn ++ [none] })
+  | "cr" :: sym :: rest =>
+    match unhex sym, readStrDecs rest with
+    | some s, some ps => pure (some { st with crystIn := st.crystIn ++ [some ⟨String.ofList s, ps⟩] })
+    | _, _ => do reply "ERR bad-op"; pure (some st)
+  | ["cov_load"] =>
+    match mapM? parseCovLine (lines st.covText) with
+    | some rows =>
+      if Cov.rowsOk symOf rows then do reply "ok"; pure (some { st with cov := some (Cov.loadRows rows) })
+      else do reply "ERR"; pure (some { st with cov := none })
+    | none => do reply "ERR"; pure (some { st with cov := none })
+  | ["cov_q", z] => do
+    match st.cov, natTok z with
+    | some t, some z =>
+      match aget z t with
+      | some (r, dr) => reply s!"{showF r} {showO dr}"
+      | none => reply "N N"
+    | _, _ => reply "ERR not-loaded"
+    pure (some st)
+  | ["cr_load"] =>
+    if Crystal.ok symOf st.crystIn then do reply "ok"; pure (some { st with cryst := some (Crystal.load st.crystIn) })
+    else do reply "ERR"; pure (some { st with cryst := none })
+  | ["cr_q", z] => do
+    match st.cryst, natTok z with
+    | some t, some z =>
+      match aget z t with
+      | none => reply "X"
+      | some none => reply "N"
+      | some (some c) =>
+        reply (hexOfStr c.symmetry ++ String.join (c.params.map fun p => s!" {hexOfStr p.1} {showF (decF p.2)}"))
+    | _, _ => reply "ERR not-loaded"
+    pure (some st)
+  | ["lines_load"] =>
+    match mapM? parseLineRow (lines st.linesText) with
+    | some rows =>
+      if Lines.rowsOk zOf rows then do reply "ok"; pure (some { st with xlines := some (Lines.loadRows zOf rows) })
+      else do reply "ERR"; pure (some { st with xlines := none })
+    | none => do reply "ERR"; pure (some { st with xlines := none })
+  | ["lines_q", z] => do
+    match st.xlines, natTok z with
+    | some t, some z =>
+      match aget z t with
+      | some (a, b) => reply s!"{showF (decF a)} {showF (decF b)}"
+      | none => reply "X X"
+    | _, _ => reply "ERR not-loaded"
+    pure (some st)
+  | ["mag_load"] =>
+    match parseMag st.magText with
+    | some rows =>
+      if Mag.rowsOk zOf rows then do reply "ok"; pure (some { st with mag := some (Mag.loadRows zOf rows) })
+      else do reply "ERR"; pure (some { st with mag := none })
+    | none => do reply "ERR"; pure (some { st with mag := none })
+  | ["mag_charges", z] => do
+    match st.mag, natTok z with
+    | some t, some z =>
+      let qs := ((t.filter fun p => p.1.1 == z).map fun p => p.1.2).eraseDups.mergeSort (· ≤ ·)
+      if qs.isEmpty then reply "X" else reply (" ".intercalate (qs.map toString))
+    | _, _ => reply "ERR not-loaded"
+    pure (some st)
+  | ["mag_q", z, q, jn] => do
+    match st.mag, natTok z, natTok q, jnOfTok jn with
+    | some t, some z, some q, some jn =>
+      match aget (z, q) t with
+      | none => reply "X"
+      | some r => match r.get jn with
+        | none => reply "X"
+        | some v => reply (showDecs v)
+    | _, _, _, _ => reply "ERR not-loaded"
+    pure (some st)
+  | ["mag_ff", z, q, jn, qq] => do
+    match st.mag, natTok z, natTok q, jnOfTok jn, readF qq with
+    | some t, some z, some q, some jn, some qq =>
+      match (aget (z, q) t).bind (fun r => r.get jn) with
+      | none => reply "X"
+      | some v =>
+        let vf := v.map decF
+        let r := match jn with
+          | .j0 | .J => formfactor0 vf qq
+          | _ => formfactorN vf qq
+        match r with
+        | some x => reply (showF x)
+        | none => reply "X"
+    | _, _, _, _, _ => reply "ERR not-loaded"
+    pure (some st)
+  | ["cm_load"] =>
+    match parseCM st.cmText with
+    | some es => do reply s!"ok {es.length}"; pure (some { st with cm := some (CM.load es) })
+    | none => do reply "ERR"; pure (some { st with cm := none })
+  | ["cm_q", sym] => do
+    match st.cm, unhex sym with
+    | some t, some s =>
+      match aget (String.ofList s) t with
+      | some e => reply s!"{showDecs e.a} {showF (decF e.c)} {showDecs e.b}"
+      | none => reply "X"
+    | _, _ => reply "ERR not-loaded"
+    pure (some st)
+  | ["cm_key", sym, q] => do
+    match unhex sym with
+    | some s =>
+      let charge : Option (Option Int) := if q == "N" then some none else (intTok q).map some
+      match charge with
+      | some c => reply (hexOfStr (String.ofList (cmKey s c)))
+      | none => reply "ERR bad-op"
+    | none => reply "ERR bad-hex"
+    pure (some st)
+  | ["cm_f0", sym, q, stol] => do
+    match st.cm, unhex sym, readF stol with
+    | some t, some s, some x =>
+      let charge : Option Int := if q == "N" then none else intTok q
+      match aget (String.ofList (cmKey s charge)) t with
+      | some e =>
+        if x > 6 then reply (showF (0.0 / 0.0))
+        else reply (showF (cmAtStol (e.a.map decF) (e.b.map decF) (decF e.c) x))
+      | none => reply "X"
+    | _, _, _ => reply "ERR not-loaded"
+    pure (some st)
+  | ["anc_selfcheck"] => do reply (ancSelfcheck st); pure (some st)
+  | _ => pure none
+
 def handle (st : St) : Toks → IO St
   | ["mass_iso", h] => match unhex h with
     | some t => pure { st with isoText := t }
@@ -320,6 +521,9 @@ def handle (st : St) : Toks → IO St
   | toks => do
     match ← handleNsf st toks with
     | some st' => pure st'
-    | none => do reply "ERR bad-op"; pure st
+    | none =>
+      match ← handleAnc st toks with
+      | some st' => pure st'
+      | none => do reply "ERR bad-op"; pure st
 
 end Driver.LoaderCmd
